@@ -1466,6 +1466,11 @@ func lemmaSynonymCodeRoundTrip(synonymID, docID uint32) {
 //@ requires postItr != nil && itInv(postItr) [C06,C07]
 //@ wf requires itGeneral(postItr) ==> itWF(postItr) && itSubset(postItr)
 //@ loop 1 invariant postItr == old(postItr) && (err == nil ==> itInv(postItr)) && coderSized(tfEncoder) && coderSized(locEncoder) [C06,C07]
+// re-encode path: the pass that sizes a hit's location block and the pass that writes it describe every location by
+// the same five numbers - the merged id of its source field (fieldsMap holds id+1), position, start, end, number of
+// array positions (locXOf: the getters' values as functions of the location object)
+//@ assert totalUvarintBytes#1 : $a == uint64(uint16(mapget(fieldsMap, locFieldOf(payload(loc))) - 1)) && $b == locPosOf(payload(loc)) && $c == locStartOf(payload(loc)) && $d == locEndOf(payload(loc)) && int($e) == locNapOf(payload(loc)) && len($more) == locNapOf(payload(loc)) [C06,C09]
+//@ assert (*chunkedIntCoder).Add#4 : len($vals) == 5 + locNapOf(payload(loc)) && $vals[0] == uint64(uint16(mapget(fieldsMap, locFieldOf(payload(loc))) - 1)) && $vals[1] == locPosOf(payload(loc)) && $vals[2] == locStartOf(payload(loc)) && $vals[3] == locEndOf(payload(loc)) && int($vals[4]) == locNapOf(payload(loc)) [C06,C09]
 //@ ensures coderSized(tfEncoder) && coderSized(locEncoder)
 //@ modifies *, ghost bmSet, ghost itSet
 //@ end
